@@ -5,6 +5,7 @@ import (
 	"go/format"
 	"go/parser"
 	"go/token"
+	"regexp"
 	"strings"
 )
 
@@ -669,7 +670,9 @@ func prepass(path string, fd *ast.FuncDecl) *ast.FuncDecl {
 	before := src(fd.Body)
 	destructure(path, fd)
 	expandHelpers(path, fd)
+	inlineGuardClosures(fd)
 	normaliseRecvLoops(fd)
+	normaliseNames(fd)
 	if len(fd.Body.List) != n || src(fd.Body) != before {
 		return reparse(fd)
 	}
@@ -746,4 +749,186 @@ func normaliseRecvLoops(fd *ast.FuncDecl) {
 		}
 		return true
 	})
+}
+
+// names the translators look for literally: the WaitGroup is `wg`. A WaitGroup declared under another name is renamed
+// when `wg` means nothing else in the function.
+func normaliseNames(fd *ast.FuncDecl) {
+	name := ""
+	ast.Inspect(fd.Body, func(n ast.Node) bool {
+		switch y := n.(type) {
+		case *ast.ValueSpec:
+			if len(y.Names) == 1 && y.Type != nil && src(y.Type) == "sync.WaitGroup" && name == "" {
+				name = y.Names[0].Name
+			}
+		case *ast.AssignStmt:
+			if y.Tok == token.DEFINE && len(y.Lhs) == 1 && len(y.Rhs) == 1 && name == "" {
+				if r := src(y.Rhs[0]); r == "new(sync.WaitGroup)" || r == "&sync.WaitGroup{}" {
+					if i, ok := y.Lhs[0].(*ast.Ident); ok {
+						name = i.Name
+					}
+				}
+			}
+		}
+		return true
+	})
+	if name == "" || name == "wg" {
+		return
+	}
+	clash := false
+	ast.Inspect(fd, func(n ast.Node) bool {
+		if i, ok := n.(*ast.Ident); ok && i.Name == "wg" {
+			clash = true
+		}
+		return true
+	})
+	if clash {
+		return
+	}
+	ast.Inspect(fd.Body, func(n ast.Node) bool {
+		if i, ok := n.(*ast.Ident); ok && i.Name == name {
+			i.Name = "wg"
+		}
+		return true
+	})
+}
+
+var parLoop = regexp.MustCompile(`^(\w+) := (?:1; (\w+) <= par; (\w+)\+\+|0; (\w+) < par; (\w+)\+\+|par; (\w+) > 0; (\w+)--|par; (\w+) >= 1; (\w+)--)$`)
+
+// a `for` header that runs its body exactly `par` times (the counter must not be used by the body: checked by callers)
+func isParLoop(hd string) (string, bool) {
+	m := parLoop.FindStringSubmatch(hd)
+	if m == nil {
+		return "", false
+	}
+	for _, g := range m[2:] {
+		if g != "" && g != m[1] {
+			return "", false
+		}
+	}
+	return m[1], true
+}
+
+// `ok := func() bool { select { case …: return true; …; default: return false } }` used as `if ok() { return }` or
+// `if !ok() { return }`: the `if` is replaced by the select, an arm whose result makes the condition true ends with a
+// bare `return`, the other arms fall through (their `return b` is dropped). Only closures without parameters whose
+// body is that single select, every arm ending in `return true` or `return false`.
+func inlineGuardClosures(fd *ast.FuncDecl) {
+	guards := map[string]*ast.SelectStmt{}
+	defs := map[string]int{}
+	for k, st := range fd.Body.List {
+		as, ok := st.(*ast.AssignStmt)
+		if !ok || as.Tok != token.DEFINE || len(as.Lhs) != 1 || len(as.Rhs) != 1 {
+			continue
+		}
+		lit, ok := as.Rhs[0].(*ast.FuncLit)
+		if !ok || (lit.Type.Params != nil && len(lit.Type.Params.List) != 0) || lit.Type.Results == nil ||
+			len(lit.Type.Results.List) != 1 || src(lit.Type.Results.List[0].Type) != "bool" || len(lit.Body.List) != 1 {
+			continue
+		}
+		sel, ok := lit.Body.List[0].(*ast.SelectStmt)
+		if !ok {
+			continue
+		}
+		good := true
+		for _, cl := range sel.Body.List {
+			cc := cl.(*ast.CommClause)
+			if len(cc.Body) == 0 {
+				good = false
+				break
+			}
+			r, ok := cc.Body[len(cc.Body)-1].(*ast.ReturnStmt)
+			if !ok || len(r.Results) != 1 || (src(r.Results[0]) != "true" && src(r.Results[0]) != "false") {
+				good = false
+			}
+			for _, s := range cc.Body[:len(cc.Body)-1] {
+				ast.Inspect(s, func(n ast.Node) bool {
+					if _, ok := n.(*ast.ReturnStmt); ok {
+						good = false
+					}
+					return true
+				})
+			}
+		}
+		if good {
+			guards[as.Lhs[0].(*ast.Ident).Name] = sel
+			defs[as.Lhs[0].(*ast.Ident).Name] = k
+		}
+	}
+	if len(guards) == 0 {
+		return
+	}
+	used := map[string]int{}
+	other := map[string]bool{}
+	var rewriteList func(list []ast.Stmt) []ast.Stmt
+	instance := func(sel *ast.SelectStmt, exitOn string) ast.Stmt {
+		ns := &ast.SelectStmt{Body: &ast.BlockStmt{}}
+		for _, cl := range sel.Body.List {
+			cc := cl.(*ast.CommClause)
+			nb := append([]ast.Stmt{}, cc.Body[:len(cc.Body)-1]...)
+			if src(cc.Body[len(cc.Body)-1].(*ast.ReturnStmt).Results[0]) == exitOn {
+				nb = append(nb, &ast.ReturnStmt{})
+			}
+			ns.Body.List = append(ns.Body.List, &ast.CommClause{Comm: cc.Comm, Body: nb})
+		}
+		return ns
+	}
+	rewriteList = func(list []ast.Stmt) []ast.Stmt {
+		out := []ast.Stmt{}
+		for _, st := range list {
+			if is, ok := st.(*ast.IfStmt); ok && is.Init == nil && is.Else == nil && len(is.Body.List) == 1 {
+				if r, ok := is.Body.List[0].(*ast.ReturnStmt); ok && len(r.Results) == 0 {
+					cond, exitOn := is.Cond, "true"
+					if u, ok := cond.(*ast.UnaryExpr); ok && u.Op == token.NOT {
+						cond, exitOn = u.X, "false"
+					}
+					if c, ok := cond.(*ast.CallExpr); ok && len(c.Args) == 0 {
+						if i, ok := c.Fun.(*ast.Ident); ok && guards[i.Name] != nil {
+							used[i.Name]++
+							out = append(out, instance(guards[i.Name], exitOn))
+							continue
+						}
+					}
+				}
+			}
+			ast.Inspect(st, func(n ast.Node) bool {
+				switch y := n.(type) {
+				case *ast.BlockStmt:
+					y.List = rewriteList(y.List)
+					return false
+				case *ast.CaseClause:
+					y.Body = rewriteList(y.Body)
+					return false
+				case *ast.CommClause:
+					y.Body = rewriteList(y.Body)
+					return false
+				}
+				return true
+			})
+			out = append(out, st)
+		}
+		return out
+	}
+	fd.Body.List = rewriteList(fd.Body.List)
+	// a guard that is still mentioned (another use) keeps its definition; otherwise the definition goes
+	ast.Inspect(fd.Body, func(n ast.Node) bool {
+		if c, ok := n.(*ast.CallExpr); ok {
+			if i, ok := c.Fun.(*ast.Ident); ok && guards[i.Name] != nil {
+				other[i.Name] = true
+			}
+		}
+		return true
+	})
+	out := []ast.Stmt{}
+	for _, st := range fd.Body.List {
+		if as, ok := st.(*ast.AssignStmt); ok && as.Tok == token.DEFINE && len(as.Lhs) == 1 {
+			if i, ok := as.Lhs[0].(*ast.Ident); ok && guards[i.Name] != nil && used[i.Name] > 0 && !other[i.Name] {
+				if _, isLit := as.Rhs[0].(*ast.FuncLit); isLit {
+					continue
+				}
+			}
+		}
+		out = append(out, st)
+	}
+	fd.Body.List = out
 }
